@@ -1714,10 +1714,12 @@ class SourceFinder(object):
                 xwidth = int(round(width)) + 1
 
                 # adjust the size of the island to include this source
-                xmin = min(xmin, max(0, x - xwidth / 2))
-                ymin = min(ymin, max(0, y - ywidth / 2))
-                xmax = max(xmax, min(shape[0], x + xwidth / 2 + 1))
-                ymax = max(ymax, min(shape[1], y + ywidth / 2 + 1))
+                # (integer limits: the cut-out is sliced with these, and the
+                # xo/yo of the model are made relative to them)
+                xmin = min(xmin, max(0, x - xwidth // 2))
+                ymin = min(ymin, max(0, y - ywidth // 2))
+                xmax = max(xmax, min(shape[0], x + xwidth // 2 + 1))
+                ymax = max(ymax, min(shape[1], y + ywidth // 2 + 1))
 
                 s_lims = [0.8 * min(sx, pixbeam.b * FWHM2CC),
                           max(sy, sx) * 1.25]
